@@ -617,12 +617,54 @@ Lemma routes_agree_lemma (A : Type) (mk : N -> N -> A) (mk3 : N -> N -> N -> A) 
   collect_ranges_files mk3 id (with_files l) = collect_ranges mk3 id (strip_files l).
 Proof. split; [apply region_via_eq|apply collect_files_eq]. Qed.
 
+(* ---------------------------------------------------------------- objects going away *)
+Lemma nth_drop_slot {T} (l : list (option T)) : forall i j,
+  nth_error (drop_slot l i) j =
+  if Nat.eqb j i then match nth_error l j with Some _ => Some None | None => None end else nth_error l j.
+Proof.
+  induction l as [|x t IH]; intros i j.
+  - cbn [drop_slot]. destruct (Nat.eqb j i); destruct j; reflexivity.
+  - destruct i as [|i]; destruct j as [|j]; cbn [drop_slot nth_error Nat.eqb]; try reflexivity; try apply IH.
+Qed.
+Lemma forget_eq {T} (l : list (option T)) i : forget l i = drop_slot l i.
+Proof. revert i. induction l as [|x t IH]; intros [|i]; reflexivity. Qed.
+(* dropping the object of slot i: slot i is empty, every other slot holds what it held *)
+Lemma drop_leaves_others_intact_lemma (T : Type) (l : list (option T)) (i j : N) :
+  get (drop_slot l (N.to_nat i)) i = None /\
+  (j <> i -> get (drop_slot l (N.to_nat i)) j = get l j).
+Proof.
+  unfold get. rewrite !nth_drop_slot. split.
+  - rewrite Nat.eqb_refl. destruct (nth_error l (N.to_nat i)); reflexivity.
+  - intros H. destruct (Nat.eqb_spec (N.to_nat j) (N.to_nat i)) as [E|E]; [lia|reflexivity].
+Qed.
+Lemma get_drop_slot {T} (l : list (option T)) i j (x : T) : get (drop_slot l (N.to_nat i)) j = Some x -> get l j = Some x.
+Proof.
+  destruct (N.eq_dec j i) as [->|H].
+  - rewrite (proj1 (drop_leaves_others_intact_lemma T l i i)). discriminate.
+  - rewrite (proj2 (drop_leaves_others_intact_lemma T l i j) H). auto.
+Qed.
+Lemma step_dropmap m st mi : Inv st -> forall o st', m_step m st (ODropMap mi) = (o, st') ->
+  ok_step st (ODropMap mi) o = Some st' /\ Inv st'.
+Proof.
+  intros [Hp Hm] o st' E. cbn [m_step] in E. unfold ok_step.
+  destruct (get (maps st) mi) as [L|] eqn:G; inversion E; subst; clear E; cbn [o_intact o_code o_regs mkobs negb]; evalcodes.
+  - rewrite forget_eq. split; [reflexivity|]. split; cbn [pool maps]; [exact Hp|].
+    intros j L' E'. apply get_drop_slot in E'. exact (Hm j L' E').
+  - split; [reflexivity|]. split; assumption.
+Qed.
+Lemma step_dropremoved m st k : Inv st -> forall o st', m_step m st (ODropRemoved k) = (o, st') ->
+  ok_step st (ODropRemoved k) o = Some st' /\ Inv st'.
+Proof.
+  intros Hi o st' E. cbn [m_step] in E. inversion E; subst. unfold ok_step.
+  cbn [o_intact o_code o_regs mkobs negb]. evalcodes. split; [reflexivity|exact Hi].
+Qed.
+
 Lemma step_ok m st op : Inv st -> forall o st', m_step m st op = (o, st') -> ok_step st op o = Some st' /\ Inv st'.
 Proof.
   destruct op.
   - apply step_new. - apply step_fromarc. - apply step_fromranges. - apply step_insert.
   - apply step_remove. - apply step_find. - apply step_newmap.
-  - apply step_newvia. - apply step_fromrangesf.
+  - apply step_newvia. - apply step_fromrangesf. - apply step_dropmap. - apply step_dropremoved.
 Qed.
 Lemma steps_ok m ops : forall st, Inv st -> ok_steps st ops (m_steps m st ops) = true.
 Proof.
